@@ -48,7 +48,8 @@ def probes():
     return ["file_rewritten", "header_rewritten", "header_with_defaults_rewritten", "header_with_star_rewritten",
             "docstring_replaced", "docstring_added", "async_def", "nested_def", "decorated_def", "method",
             "file_unchanged", "io_fault_fired", "line_fault_fired", "fault_after_write_open", "second_pass",
-            "multiline_header"] + ["lexical_shape_" + x for x in ("indent2", "tab", "rawdoc", "comment_before_doc", "crlf")]
+            "multiline_header", "colon_in_default", "backslash_in_docstring", "docstring_only_body"] + [
+        "lexical_shape_" + x for x in SHAPES]
 
 
 # ------------------------------------------------------------------------------------ generators
@@ -80,7 +81,18 @@ def func_item(draw, depth=0, method=False, used=None):
     types_in = draw(st.sampled_from(("doc", "sig", "doc", "none")))
     ref = iface["params"][0]["name"] if iface["params"] else "None"
     body = [s.format(a=ref) for s in draw(st.lists(st.sampled_from(BODY_STMTS), min_size=0, max_size=3))]
+    if iface["params"] and draw(st.integers(0, 5)) == 5:
+        # defaults whose source text contains ':' (string, dict, lambda) or nested parentheses
+        j = draw(st.integers(0, len(iface["params"]) - 1))
+        for p_ in iface["params"][j:]:
+            if p_.get("default") is None:
+                p_["default"] = "None"
+        iface["params"][j]["default"] = draw(st.sampled_from(("'a:b'", "{'k': 1}", "lambda q: q", "(1, (2, 3))", "'x)'")))
+        iface["params"][j]["odd_default"] = True
+    if iface["params"] and draw(st.integers(0, 7)) == 7:
+        iface["params"][0]["doc"] = iface["params"][0]["doc"] + " matching \\\\d+ digits"
     item = {"kind": "func", "iface": iface, "style": style, "types_in": types_in,
+            "doc_only": draw(st.integers(0, 7)) == 7,
             "async": draw(st.integers(0, 5)) == 5, "decorators": draw(st.lists(st.sampled_from(DECORATORS), max_size=1))
             if draw(st.integers(0, 3)) == 3 else [],
             "multiline": draw(st.integers(0, 3)) == 3, "vararg": vararg, "kwonly": kwonly, "kwarg": kwarg, "body": body,
@@ -147,7 +159,8 @@ def plans(draw, n_seeded_lines=12):
             "shape": draw(st.sampled_from((None,) * 9 + SHAPES))}
 
 
-SHAPES = ("indent2", "tab", "rawdoc", "comment_before_doc", "crlf")
+SHAPES = ("indent2", "tab", "rawdoc", "comment_before_doc", "crlf", "arrow_default", "def_line_comment")
+DEF_LINE_COMMENT = "  # trailing on the def line"
 SHAPE_COMMENT = "# note placed before the docstring"
 
 
@@ -164,6 +177,19 @@ def apply_shape(text, shape):
         return "\n".join(out)
     if shape == "crlf":
         return text.replace("\n", "\r\n")
+    if shape in ("arrow_default", "def_line_comment"):
+        import re
+        lines = text.split("\n")
+        for i, ln in enumerate(lines):
+            if re.match(r"^\s*(?:async\s+)?def\s+\w+\(.*\).*:\s*$", ln):
+                if shape == "def_line_comment":
+                    lines[i] = ln.rstrip() + DEF_LINE_COMMENT
+                    break
+                new = re.sub(r"(=\s?)'([^']*)'", r"\1'\2->z'", ln, count=1)
+                if new != ln:
+                    lines[i] = new
+                    break
+        return "\n".join(lines)
     lines = text.split("\n")
     for i, ln in enumerate(lines):
         if ln.strip() == '\"\"\"' and i and lines[i - 1].rstrip().endswith(":") and "def " in lines[i - 1]:
@@ -195,6 +221,24 @@ def unshape(text, shape):
         return text.replace('r\"\"\"', '\"\"\"')
     if shape == "comment_before_doc":
         return "\n".join(ln for ln in text.split("\n") if ln.strip() != SHAPE_COMMENT)
+    if shape == "arrow_default":
+        return text.replace("->z'", "'")
+    if shape == "def_line_comment":
+        return text.replace(DEF_LINE_COMMENT, "")
+    if shape == "async_doc_only":
+        try:
+            tree = ast.parse(text)
+        except SyntaxError:
+            return text
+        lines = text.split("\n")
+        adds = []
+        for node in ast.walk(tree):
+            if isinstance(node, ast.AsyncFunctionDef) and len(node.body) == 1 and isinstance(node.body[0], ast.Expr) \
+                    and isinstance(node.body[0].value, ast.Constant) and isinstance(node.body[0].value.value, str):
+                adds.append((node.body[0].end_lineno, " " * node.body[0].col_offset + "return None"))
+        for ln, txt in sorted(adds, reverse=True):
+            lines.insert(ln, txt)
+        return "\n".join(lines)
     if shape == "one_line":
         import re
         return re.sub(r"(?m)^(\s*)((?:async\s+)?def\s+\w+\(.*\).*:) return 1$", r"\1\2\n\1    return 1", text)
@@ -233,6 +277,8 @@ def render_func(item, indent=""):
         documented["params"] = list(iface["params"]) + list(item.get("kwonly", ()))
         lines.append(gen.render_docstring(documented, item["style"], indent=inner,
                                           with_types=item["types_in"] == "doc"))
+    if item.get("doc_only") and item["style"] != "none" and not item.get("nested"):
+        return lines   # a stub: the docstring is the whole body
     for s in item.get("body", ()):
         for ln in s.split("\n"):
             lines.append(inner + ln)
@@ -429,7 +475,7 @@ def check_ok(before, after, info, counterfactual=None):
     `shape_is_cause` names the shape iff the same text with the shape undone converts without a violation of that clause."""
     v = _check_ok(before, after, info, counterfactual)
     # the one listed known-bad shape this file carries: a lexical shape, else one-line definitions
-    shape = info.get("shape") or ("one_line" if info.get("one_line_names") else None)
+    shape = info.get("shape")
     if v and shape and counterfactual is not None:
         plain = unshape(before, shape)
         if plain != before:
@@ -548,6 +594,12 @@ def _features(spec):
                 f["star"] = True
             if any(p.get("default") is not None for p in it["iface"]["params"]):
                 f["defaults"] = True
+            if any(p.get("odd_default") for p in it["iface"]["params"]):
+                f["colon_in_default"] = True
+            if any("\\\\d+" in (p.get("doc") or "") for p in it["iface"]["params"]):
+                f["backslash_in_docstring"] = True
+            if it.get("doc_only") and it["style"] != "none" and not it.get("nested"):
+                f["docstring_only_body"] = True
             if it.get("method"):
                 f["method"] = True
             if it.get("nested"):
@@ -561,22 +613,40 @@ def _features(spec):
     return f
 
 
-def _without_item_shapes(module):
+def _one_item_shape(module, keep):
+    """Returns (module', item_shape).  keep=None: clear every per-definition known-bad shape (a lexical shape is in
+    force).  keep="auto": keep one kind only — one-line definitions if any, else async docstring-only stubs."""
     import copy
     m = copy.deepcopy(module)
+    funcs = []
 
-    def fix(it):
+    def walk(it):
         if it.get("kind") == "func":
-            it["one_line"] = False
-            it["header_comment"] = False
+            funcs.append(it)
             if it.get("nested"):
-                fix(it["nested"])
+                walk(it["nested"])
         elif it.get("kind") == "class":
             for x in it.get("methods", ()):
-                fix(x)
+                walk(x)
     for it in m["items"]:
-        fix(it)
-    return m
+        walk(it)
+
+    def is_async_stub(f):
+        return bool(f.get("async") and f.get("doc_only") and f["style"] != "none" and not f.get("nested"))
+    chosen = None
+    if keep == "auto":
+        if any(f.get("one_line") for f in funcs):
+            chosen = "one_line"
+        elif any(is_async_stub(f) for f in funcs):
+            chosen = "async_doc_only"
+    for f in funcs:
+        if chosen != "one_line":
+            f["one_line"] = False
+        if chosen != "async_doc_only" and is_async_stub(f):
+            f["doc_only"] = False
+        if keep is None:
+            f["header_comment"] = False
+    return m, chosen
 
 
 def fault_points(reh, plan, tier_lines):
@@ -628,14 +698,14 @@ def simulate(plan, tier_lines=12, per_line=False):
     def bump(d, k, n=1):
         d[k] = d.get(k, 0) + n
 
+    # exactly one listed known-bad shape per file, so that every counterfactual isolates one cause: the drawn lexical
+    # shape wins, else one-line definitions, else an async def whose body is only a docstring
     shape = plan.get("shape")
-    if shape:
-        # one listed known-bad shape per file: with a lexical shape the per-definition shapes are switched off, so that
-        # every counterfactual isolates exactly one cause
-        plan = dict(plan, module=_without_item_shapes(plan["module"]))
+    module, item_shape = _one_item_shape(plan["module"], keep=None if shape else "auto")
+    plan = dict(plan, module=module)
     src = apply_shape(render_module(plan["module"]), shape)
     feats = _features(plan["module"])
-    feats["shape"] = shape
+    feats["shape"] = shape or item_shape
     if shape:
         bump(probe, "lexical_shape_" + shape)
     world = SimWorld(tag="c07")
@@ -691,10 +761,11 @@ def simulate(plan, tier_lines=12, per_line=False):
             elif after != before:
                 viols.append({"clause": "A5", "detail": "doctrans raised %s (%s) but the file changed" % (
                     o.exc_type, (o.exc_msg or "")[:120]), "sig": {"what": "natural_error", "site": o.exc_site}})
-            for k in ("async", "nested", "decorated", "method", "multiline"):
+            for k in ("async", "nested", "decorated", "method", "multiline", "colon_in_default", "backslash_in_docstring",
+                      "docstring_only_body"):
                 if feats.get(k):
                     bump(probe, {"async": "async_def", "nested": "nested_def", "decorated": "decorated_def",
-                                 "method": "method", "multiline": "multiline_header"}[k])
+                                 "method": "method", "multiline": "multiline_header"}.get(k, k))
             for x in viols:
                 x["detail"] = "cmd %d %s: %s" % (ci, _cfg(cmd), x["detail"])
             res.violations += viols
@@ -855,6 +926,8 @@ def plan(tier, seed, scale=1.0):
 
 
 def work(task):
+    import warnings
+    warnings.simplefilter("ignore")   # converted docstrings may contain `\d`: a SyntaxWarning of ast.parse, not a finding
     known = load_known(ID)
     quick = task["tier"] == "quick"
     strat = plans(n_seeded_lines=6 if quick else 40)
